@@ -131,7 +131,7 @@ static unsigned int _warc_rdtyp(const char *buf, size_t bsz);
 static warc_string_t _warc_rduri(const char *buf, size_t bsz);
 static ssize_t _warc_rdlen(const char *buf, size_t bsz);
 static time_t _warc_rdrtm(const char *buf, size_t bsz);
-static time_t _warc_rdmtm(const char *buf, size_t bsz);
+static int _warc_rdmtm(const char *buf, size_t bsz, time_t *mtime);
 static const char *_warc_find_eoh(const char *buf, size_t bsz);
 static const char *_warc_find_eol(const char *buf, size_t bsz);
 
@@ -363,7 +363,7 @@ start_over:
 		 * this is a custom header added by our writer, it's quite
 		 * hard to believe anyone else would go through with it
 		 * (apart from being part of some http responses of course) */
-		if ((mtime = _warc_rdmtm(buf, eoh - buf)) == (time_t)-1) {
+		if (_warc_rdmtm(buf, eoh - buf, &mtime) != 0) {
 			mtime = rtime;
 		}
 		break;
@@ -609,7 +609,7 @@ xstrpisotime(const char *s, char **endptr)
 		++s;
 
 	/* read year */
-	if ((tm.tm_year = strtoi_lim(s, &s, 1583, 4095)) < 0 || *s++ != '-') {
+	if ((tm.tm_year = strtoi_lim(s, &s, 1583, 9999)) < 0 || *s++ != '-') {
 		goto out;
 	}
 	/* read month */
@@ -839,9 +839,11 @@ _warc_rdrtm(const char *buf, size_t bsz)
 	return res;
 }
 
-static time_t
-_warc_rdmtm(const char *buf, size_t bsz)
+static int
+_warc_rdmtm(const char *buf, size_t bsz, time_t *mtime)
 {
+/** 0 and the time in *MTIME, or -1 if there is none: one second
+ * before the epoch, (time_t)-1, is a time like any other here */
 	static const char _key[] = "\r\nLast-Modified:";
 	const char *val, *eol;
 	char *on = NULL;
@@ -849,7 +851,7 @@ _warc_rdmtm(const char *buf, size_t bsz)
 
 	if ((val = xmemmem(buf, bsz, _key, sizeof(_key) - 1U)) == NULL) {
 		/* no bother */
-		return (time_t)-1;
+		return -1;
 	}
 	val += sizeof(_key) - 1U;
 	if ((eol = _warc_find_eol(val, buf + bsz - val)) == NULL ) {
@@ -863,7 +865,8 @@ _warc_rdmtm(const char *buf, size_t bsz)
 		/* line must end here */
 		return -1;
 	}
-	return res;
+	*mtime = res;
+	return 0;
 }
 
 static const char*
